@@ -31,7 +31,7 @@ theorem model_meets_spec (c : Case) (hwf : wf c = true) (hk : known c = []) : sp
     | some lf =>
       rw [hlf] at hrest
       simp only [Bool.and_eq_true] at hrest
-      obtain ⟨⟨hc01, hcall⟩, hlay⟩ := hrest
+      obtain ⟨⟨⟨hc01, hcall⟩, hlay⟩, _⟩ := hrest
       obtain ⟨l, rest, hnodes, hrs, hrd⟩ := leafOf_some c nodes lf hlf
       -- the leaf resolves the frozen pair (no K05a)
       have hfr : lf.rset = .frozen ∧ lf.rdel = .frozen := by
